@@ -111,6 +111,7 @@ OVERRIDES = [
     (r'^c12_number_', dict(functions=['<Number as PartialEq>::eq', '<Number as PartialOrd>::partial_cmp'])),
     (r'^c01_cmp_chan|^c12_cmp_chan', dict(functions=['cmp_chan'])),
     (r'^c31_cap_contract$', dict(functions=['cap'])),
+    (r'^c31_deg_mod_contract$', dict(functions=['colors::hsla::deg_mod (body extracted each run; `%` by its assumed IEEE contract)'])),
     (r'^c31_max_min_largest_contract$', dict(functions=['max_min_largest'])),
     (r'^c01_get_indent_contract$', dict(functions=['Format::get_indent'])),
     (r'^c01_long_indent_contract', dict(functions=['format::long_indent'])),
@@ -153,14 +154,14 @@ EXTRA_PROPS = [
     (r'^c01_number_into_integer', ['C28', 'C17']),
     (r'^c12_number_', ['C11']),
     (r'^c31_max_min_largest|^c31_rgba_to_hsla|^c31_hsla_to_rgba', ['C32']),
+    (r'^c31_deg_mod_contract', ['C32', 'C01', 'C12']),
 ]
 
 # assumptions specific to a harness file (stubs = assumed contracts), merged
 # into the evidence of every property the file serves
-DEG_MOD = ('ASSUMED, UNCHECKED contract of colors::hsla::deg_mod (the only user of f64 %): CBMC 6.11 does not model f64 % '
-           'and Verus has no float arithmetic, so every call site sees kani_verif::deg_mod_by_contract instead of the body '
-           '(identity on [0,360), v-360 on [360,720), 0 at 720, v+360 folded to 0 on [-360,0), "some angle in [0,360)" for any '
-           'other finite v, NaN otherwise)')
+DEG_MOD = ('deg_mod call sites see kani_verif::deg_mod_by_contract instead of the body (CBMC 6.11 does not model f64 %); that contract is '
+           'PROVED for the real body (text extracted each run) by c31_deg_mod_contract for all doubles, modulo one ASSUMED, UNCHECKED contract: '
+           'f64 % 360.0 is IEEE fmod (exact; sign of the dividend; magnitude below 360; v itself when |v| < 360; v -/+ 360 when 360 <= |v| < 720)')
 FILE_ASSUMPTIONS = {
     'colorfns.rs': [DEG_MOD],
     'colors.rs': [DEG_MOD], 'convert.rs': [DEG_MOD], 'hsla.rs': [DEG_MOD], 'hwba.rs': [DEG_MOD],
